@@ -177,7 +177,7 @@ static void stage_shapes(Run &R) {
     uint64_t idx = 0, total = 0;
     auto go = [&](const Bytes &f) -> bool { total++; if ((int) (idx++ % R.a.nworkers) != R.a.worker) return true; auto x = check_file(R, f); return !(x && !R.fail(*x)); };
     for (const char *t : {"\n", "\r\n", ""}) {
-        for (const char *l : {"", " ", "  ", "\t", " \t", "#", "#x", " #x", "a@b.com", " a@b.com ", "a@b.com\t", "a@b.com  ", "\r", "a\r@b.com", "\xFF", "a\xFF@b.com", "\xD0\xB8@\xD0\xBF\xD0\xBE\xD1\x87\xD1\x82\xD0\xB0.\xD1\x80\xD1\x84", "\x01", "a\x7f@b.com", "a@b.com\r"})
+        for (const char *l : {"", " ", "  ", "\t", " \t", "#", "#x", " #x", "a@b.com", " a@b.com ", "a@b.com\t", "a@b.com  ", "\r", "a\r@b.com", "\xFF", "a\xFF@b.com", "\xD0\xB8@\xD0\xBF\xD0\xBE\xD1\x87\xD1\x82\xD0\xB0.\xD1\x80\xD1\x84", "\x01", "a\x7f@b.com", "a@b.com\r", "a@b.com\rx", "a@b.co\rm", "x\r", "\r\r", "a@b.com\r\r", "a@b.com \r", "a@b.com\r "})
             if (!go(Bytes(l) + t)) return;
         for (size_t n : {1000, 1022, 1023, 1024, 1025, 2040, 2044, 2045, 2046, 2047, 2048, 2049, 2050, 2060, 4096, 8192, 20000}) {
             if (!go("u@" + Bytes(n - 6, 'a') + ".com" + t)) return;
